@@ -83,7 +83,10 @@ fn diff(a: &Snap, b: &Snap) -> Vec<Change> {
     if gone.len() == 1 && new.is_empty() && a[gone[0]].is_some() {
         let src = gone[0];
         for (k, v) in b {
-            if a.get(k).is_some() && a[k] != *v && *v == a[src] {
+            // (the target may already have had the same content: a reopen right after a reopen
+            // rewrites the manifest to what it was)
+            let same_as_before = a[k] == *v;
+            if a.get(k).is_some() && *v == a[src] && (!same_as_before || (src == "manifest.tmp.json" && k == "manifest.json")) {
                 return vec![Change::Rename(src.clone(), k.clone())];
             }
         }
